@@ -12,6 +12,7 @@ open Goloop Goloop.C17 Goloop.C18
 structure St where
   cur : Node := .empty
   snaps : Array Node := #[]
+  ver : Option Node := none   -- the trie whose root the reused verifier was created for
   dead : Bool := false     -- a Delete panicked (only after the known empty-value divergence)
 
 def H : Bytes → Bytes := Goloop.sha3_256
@@ -59,6 +60,7 @@ def mutate (p : List Bytes) (kind a b c : Nat) (x : Bytes) : List Bytes :=
     | 4 => p.set i it.dropLast
     | 5 => p.take i ++ [x] ++ p.drop i
     | 6 => if i + 1 < n then (p.set i (p.getD (i + 1) [])).set (i + 1) it else p
+    | 7 => p.set i x
     | _ => p
 
 def rootOf (t : Node) : Bytes := (rootHash H t).getD []
@@ -140,6 +142,35 @@ def step (s : St) (toks : List String) : St × String :=
       | none => (s, "noproof")
       | some p => (s, proveOn (rootOf s.cur) k (mutate p kind a b c x))
     | _, _, _, _, _, _ => bad
+  | ["vnew"] => ({ s with ver := some s.cur }, "ok")
+  | ["vflush"] => (s, if s.ver.isSome then "ok" else "bad-op")
+  | ["vclear"] => (s, if s.ver.isSome then "ok" else "bad-op")
+  | ["vreload"] => (s, if s.ver.isSome then "ok" else "bad-op")
+  | ["vprove", k] =>
+    -- a reused verifier answers like a fresh one
+    match s.ver, Hex.decodeWire k with
+    | some t, some k =>
+      match getProofRoot H t (bytesToNibs k) with
+      | none => (s, "noproof")
+      | some p => (s, proveOn (rootOf t) k p)
+    | _, _ => bad
+  | ["vpmut", k, kind, a, b, c, x] =>
+    match s.ver, Hex.decodeWire k, kind.toNat?, a.toNat?, b.toNat?, c.toNat?, Hex.decodeWire x with
+    | some t, some k, some kind, some a, some b, some c, some x =>
+      match getProofRoot H t (bytesToNibs k) with
+      | none => (s, "noproof")
+      | some p => (s, proveOn (rootOf t) k (mutate p kind a b c x))
+    | _, _, _, _, _, _, _ => bad
+  | ["vother", j, k] =>
+    -- proof taken from the trie of snapshot j, checked by the reused verifier
+    match s.ver, j.toNat?, Hex.decodeWire k with
+    | some t, some j, some k =>
+      if h : j < s.snaps.size then
+        match getProofRoot H s.snaps[j] (bytesToNibs k) with
+        | none => (s, "noproof")
+        | some p => (s, proveOn (rootOf t) k p)
+      else bad
+    | _, _, _ => bad
   | ["pother", k, k2] =>
     -- prove key k with the proof of key k2
     match Hex.decodeWire k, Hex.decodeWire k2 with
